@@ -53,7 +53,7 @@ ASSUMPTIONS = [
     'so a stale CID pair never equals a live one)',
 ]
 MIN_EVENTS = {
-    'quick': {'table_comparisons': 12000, 'ops': 4000, 'reopen_after_close': 1000, 'cut_points': 500, 'enhanced_refusals_attempted': 50, 'crossing_closes': 100,
+    'quick': {'table_comparisons': 12000, 'ops': 4000, 'reopen_after_close': 1000, 'cut_points': 500, 'enhanced_refusals_attempted': 50, 'crossing_closes': 100, 'opens_pending_while_other_link_dropped': 60,
               'wrap_cycles': 2500, 'wrap_bursts': 25, 'wrap_bursts_straddling_the_wrap': 15, 'wrap_links_with_256_commands': 25,
               'giveup_attempts': 250, 'giveup_stage_silent': 100, 'giveup_stage_pending': 40, 'giveup_stage_connected': 20,
               'giveup_reopens': 120,
@@ -61,7 +61,7 @@ MIN_EVENTS = {
               'rapid_mismatch_then_open': 35, 'rapid_close_then_open': 30, 'rapid_checkpoints': 600,
               'stale_injections': 700, 'stale_when_cid-reused-pending': 250, 'stale_when_cid-reused-open': 250,
               'stale_pending_opens_completed': 150},
-    'thorough': {'table_comparisons': 60000, 'ops': 30000, 'reopen_after_close': 2000, 'cut_points': 800, 'enhanced_refusals_attempted': 400, 'crossing_closes': 800,
+    'thorough': {'table_comparisons': 60000, 'ops': 30000, 'reopen_after_close': 2000, 'cut_points': 800, 'enhanced_refusals_attempted': 400, 'crossing_closes': 800, 'opens_pending_while_other_link_dropped': 500,
                  'wrap_cycles': 40000, 'wrap_bursts': 500, 'wrap_bursts_straddling_the_wrap': 300, 'wrap_links_with_256_commands': 280,
                  'giveup_attempts': 2500, 'giveup_stage_silent': 1000, 'giveup_stage_pending': 400, 'giveup_stage_connected': 200,
                  'giveup_reopens': 1200,
@@ -273,6 +273,9 @@ async def hist_case(case, r: R):
         if tr == 'le':
             choices += ['enh']
             weights += [2]
+        if len(w.links) == 2:
+            choices += ['open-while-other-link-drops']
+            weights += [1]
         op = rng.choices(choices, weights)[0]
         desc = (op, name)
         w.history.append(desc)
@@ -366,6 +369,46 @@ async def hist_case(case, r: R):
                         for p in rs:
                             w.open[nm].append((p[0], p[1], kind))
                 await w.rg.quiesce()
+            elif op == 'open-while-other-link-drops':
+                # an open on link `name` whose response is held back at the peer while the OTHER link of device 0
+                # goes away altogether: signalling state of one link must not be touched by the end of another
+                other = 'b' if name == 'a' else 'a'
+                kind = ('le' if rng.random() < 0.6 else 'enh') if tr == 'le' else rng.choice(['br', 'ertm'])
+                peer = w.links[name][2]
+                fifo = w.rg.h2c[peer].fifo
+                fifo.paused = True
+                try:
+                    t = asyncio.ensure_future(w.op_open(name, kind, count=rng.randint(1, 3) if kind == 'enh' else 1))
+                    for _ in range(30):
+                        await asyncio.sleep(0)
+                    c0o, cxo, _po = w.links[other]
+                    oolds = list(w.open[other])
+                    await vloop.vwait(rng.choice([c0o, cxo]).disconnect())
+                    for _ in range(200):
+                        await asyncio.sleep(0)
+                finally:
+                    fifo.paused = False
+                r.ev('opens_pending_while_other_link_dropped')
+                try:
+                    pairs = await vloop.vwait(t)
+                    for p in pairs:
+                        w.open[name].append((p[0], p[1], kind))
+                except vloop.Hang:
+                    r.bad(f'hang/open/{kind}/other-link-dropped-meanwhile',
+                          f'open on link {name} pending at T_v after link {other} was dropped while its response was '
+                          f'on the way; history={w.history}')
+                    break
+                except Exception as e:
+                    r.bad(f'tables/open-failed/{kind}/other-link-dropped-meanwhile',
+                          f'open on link {name} raised {type(e).__name__}: {e} (link {other} was dropped meanwhile); '
+                          f'history={w.history}')
+                await w.rg.quiesce()
+                w.open[other] = []
+                del w.links[other]
+                for p in oolds:
+                    w.check_closed_states(p, desc)
+                await w.connect(other)
+                closed_on.add(other)
             elif op == 'drop':
                 w.flags.add('drop')
                 c0, cx, peer = w.links[name]
